@@ -17,6 +17,7 @@
 #include "../misc/byteswap.h"
 
 #include <stdint.h>
+#include <string.h>
 #include <sys/types.h>
 
 /*
@@ -54,8 +55,14 @@ uint32_t libwifi_calculate_fcs(const unsigned char *frame, size_t frame_len) {
  */
 int libwifi_frame_verify(void *frame, size_t frame_len) {
     // A frame with a CRC will have the CRC placed at the end, and is 4 bytes long.
-    uint32_t oCRC = *((uint32_t *) ((char *) frame + (frame_len - 4)));
-    uint32_t rCRC = libwifi_calculate_fcs(frame, frame_len);
+    if (frame_len < sizeof(uint32_t)) {
+        return 0;
+    }
+
+    // The FCS covers everything before it, not the FCS itself
+    uint32_t oCRC = 0;
+    memcpy(&oCRC, (unsigned char *) frame + (frame_len - sizeof(uint32_t)), sizeof(uint32_t));
+    uint32_t rCRC = libwifi_calculate_fcs(frame, frame_len - sizeof(uint32_t));
 
     if (rCRC == oCRC) {
         return 1;
